@@ -163,18 +163,20 @@ class SymStr:
 
     # ---- str methods used by hszinc ----
     def replace(self, old, new, count=-1):
-        if count != -1:
-            raise Unsupported('replace with count')
         oc, nc = chars_of(old), chars_of(new)
-        if len(oc) != 1 or not all_conc(oc):
-            raise Unsupported('replace of a pattern that is not one concrete character')
+        if not oc:
+            raise Unsupported('replace of the empty pattern')
         out = []
-        for ch in self.c:
-            hit = (ch == oc[0])
-            if hit is True or (hit is not False and bool(mkbool(hit))):
+        i, n, done = 0, len(self.c), 0
+        while i < n:
+            hit = self._sw(old, i) if (count < 0 or done < count) else False
+            if hit is True or (hit is not False and bool(mkbool(to_z3(hit)))):
                 out.extend(nc)
+                i += len(oc)
+                done += 1
             else:
-                out.append(ch)
+                out.append(self.c[i])
+                i += 1
         return mks(out)
 
     def startswith(self, prefix, start=0):
